@@ -305,7 +305,7 @@ pub fn run_c06(tier: &str, seed: u64, out: &mut Out) {
                     // Is the outcome already determined by the bytes delivered before the failure?
                     let prefix = &text[..off];
                     let mut kinds: Vec<String> = vec![];
-                    for q in [&b""[..], b" zz", b")", b"]", b"\"", b"0", b"a", b" . ", b"\n", b"|", b"#", b"\\", b";", b"e1", b".5"] {
+                    for q in [&b""[..], b" zz", b")", b"]", b"\"", b"0", b"a", b" . ", b"\n", b"|", b"#", b"\\", b";", b"e1", b".5", b"\nzz", b"\n)", b"\n\"", b"\"zz", b"\") zz", b"))) zz", b"]]] zz", b" 1)", b" 1]"] {
                         let mut t = prefix.to_vec();
                         t.extend_from_slice(q);
                         if let Ok(x) = parse_value(Src::Slice, ro, &t) { let k = kind_of(&x); if !kinds.contains(&k) { kinds.push(k); } }
